@@ -27,7 +27,8 @@ from vfw.rsitems import Source, mask  # noqa: E402
 
 # unit -> [(file, function, impl-regex or None)]
 TARGETS = {
-    'hex': [('src/writer.rs', 'generate_hex_from_segment', None), ('src/writer.rs', 'generate_hex', None)],
+    'hex': [('src/writer.rs', 'generate_hex_from_segment', None), ('src/writer.rs', 'generate_hex', None), ('src/writer.rs', 'write_code_hex', None),
+            ('src/writer.rs', 'write_eeprom_hex', None)],
     'expr': [('src/expr.rs', 'run_nested', 'Expr'), ('src/expr.rs', 'run', 'Expr'), ('src/expr.rs', 'get_byte', 'Expr'), ('src/expr.rs', 'get_bit_index', 'Expr'),
              ('src/expr.rs', 'get_words', 'Expr'), ('src/expr.rs', 'get_double_words', 'Expr'), ('src/expr.rs', 'get_quad_words', 'Expr')],
     'pass1': [('src/builder/pass1.rs', 'next_address', None), ('src/builder/pass1.rs', 'pass_1_internal', None), ('src/builder/pass1.rs', 'build_pass_1', None)],
